@@ -47,6 +47,7 @@ func (w *World) abstractInstant(u value) value {
 
 func (w *World) abstractNow() value {
 	t := w.newInput("now", 64)
+	w.run.inputs[len(w.run.inputs)-1].Env = true // natively time.Now is the real clock: it does not read the vector
 	tt := w.tt
 	lo := tt.Const(1<<40, 64)
 	if w.clockLast != nil {
